@@ -789,10 +789,16 @@ def mon_c14(hs, prev, op, ok, trace, cur, known):
     prs = rstate(prev)
     if prs is not None and rs[0] != prs[0]:
         hs['c14_updates'] = hs.get('c14_updates', 0) + 1
-    n = hs.get('c14_updates', 0)
-    k = max(1, len(hd))
-    if prevbal * D - atom > (n + 1) * k * D + D * hs.get('c14_idle', 0):
-        pass  # deliveries while nobody holds bSei stay unaccounted by design; dust bound is proved, not monitored
+    # nothing is stranded: recorded balance minus accrued rewards grows only by the flooring loss of an
+    # index update (less than total_balance atomics, i.e. less than one base unit under E1)
+    if prs is not None and wired(prev, hs) and reward_wired(prev) and not any(prs[0] < h[1] for h in holders(prev).values()):
+        patom = sum(acc_atomics(prs[0], h) for h in holders(prev).values())
+        stranded_before = prs[2] * D - patom
+        stranded_after = prevbal * D - atom
+        allowed = prs[1] if rs[0] != prs[0] else 0
+        if stranded_before >= 0 and stranded_after - stranded_before > allowed:
+            return ('violation', 'rewards stranded: recorded balance minus accrued rewards grew by %d atomics in %r (allowed %d)'
+                    % (stranded_after - stranded_before, op, allowed))
     if t[0] == 'reward' and t[2] == 'claim' and wired(prev, hs) and reward_wired(prev):
         u = t[1]
         pacc = {x[0]: int(x[1]) for x in prev.all('rw.accrued')}
@@ -1059,3 +1065,12 @@ def mon_c09_probes(hs, prev, op, ok, trace, cur, known):
             return ('violation', 'holder %s can not unbond %d %s: %s' % (a, amt, tok, ' '.join(p[5:])[:200]))
         return ('violation', 'holder %s can not exit %s at stage %s: %s' % (a, tok, p[4], ' '.join(p[5:])[:200]))
     return None
+
+
+def mon_c09_withdraw(hs, prev, op, ok, trace, cur, known):
+    """C09: once released, a claim worth at least one base unit can be withdrawn (the failing-withdrawal
+    clause of the C01 monitor)"""
+    t = op.split(' ')
+    if ok or not (t[0] == 'hub' and len(t) > 2 and t[2] == 'withdraw'):
+        return None
+    return mon_c01(hs, prev, op, ok, trace, cur, known)
